@@ -17,6 +17,7 @@ import ast
 import copy
 
 from ..astutil import AnalysisError, dotted, src, walk_local, walk_ordered, calls_in, norm
+from .. import pattern as P
 from ..rules import optable as ot
 
 TQ = "cohdl/_core/_type_qualifier.py"
@@ -82,7 +83,7 @@ def rule_chain(run):
         run.ob(dunder == exp, "PrepareAst._do_aug_assign", file=prep.rel, line=br.lineno, detail=opname,
                expected=f"{opname} -> target.{exp}", found=f"{opname} -> {dunder}")
         if calls:
-            ok = dotted(calls[0].args[0]).split(".")[0] == "target" and src(calls[0].args[1]) == "[src]"
+            ok = dotted(calls[0].args[0]).split(".")[0] == "target" and P.T(calls[0].args[1]) == "[src]"
             run.ob(ok, "PrepareAst._do_aug_assign", file=prep.rel, line=br.lineno, detail=opname + ".args",
                    expected="subcall(target.<dunder>, [src], {})", found=src(calls[0])[:70])
     for opname in DOC:
@@ -112,7 +113,7 @@ def rule_chain(run):
         repl_name = f"_{prop}_setter_replacement"
         repl = tq.func(f"{owner}.{repl_name}")
         deco_ok = any(isinstance(x, ast.Call) and dotted(x.func) == "_intrinsic_replacement" and dotted(x.args[0]) == f"{prop}.fset"
-                      and any(k.arg == "assignment_spec" and src(k.value) == "(0, 1)" for k in x.keywords) for x in repl.node.decorator_list)
+                      and any(k.arg == "assignment_spec" and P.T(k.value) == "(0, 1)" for k in x.keywords) for x in repl.node.decorator_list)
         run.ob(deco_ok, f"{owner}.{repl_name}", file=tq.rel, line=repl.node.lineno, detail="registered-for-setter",
                expected=f"@_intrinsic_replacement({prop}.fset, assignment_spec=(0, 1))", found="ok" if deco_ok else "changed")
         cls = tq.cls(owner)
@@ -121,7 +122,7 @@ def rule_chain(run):
             if isinstance(s, ast.Expr) and isinstance(s.value, ast.Call) and isinstance(s.value.func, ast.Call) and dotted(s.value.func.func) == "_intrinsic_replacement":
                 inner = s.value.func
                 if dotted(inner.args[0]) == dunder:
-                    reg = (dotted(s.value.args[0]), any(k.arg == "assignment_spec" and src(k.value) == "(0, 1)" for k in inner.keywords), s.lineno)
+                    reg = (dotted(s.value.args[0]), any(k.arg == "assignment_spec" and P.T(k.value) == "(0, 1)" for k in inner.keywords), s.lineno)
         run.ob(reg is not None and reg[0] == repl_name and reg[1], f"{owner}.{dunder}", file=tq.rel, line=(reg[2] if reg else cls.lineno), detail="registered-for-dunder",
                expected=f"_intrinsic_replacement({dunder}, assignment_spec=(0, 1))({repl_name})", found=str(reg))
         # stage 4: the replacement returns _IntrinsicAssignment(self, ..., AssignMode.X) after the trial assignment
@@ -144,15 +145,16 @@ def rule_chain(run):
     if br is None:
         raise AnalysisError("anchor vanished: _IntrinsicAssignment branch of convert_intrinsic")
     n = 0
+    rv = dotted(br.test.args[0])  # the dispatch variable (the intrinsic's result), whatever it is called
     for sub in br.body:
-        if isinstance(sub, ast.If) and isinstance(sub.test, ast.Compare) and dotted(sub.test.left) == "result.mode":
+        if isinstance(sub, ast.If) and isinstance(sub.test, ast.Compare) and dotted(sub.test.left) == f"{rv}.mode":
             m_in = dotted(sub.test.comparators[0]).split(".")[-1]
             calls = ot.ctor_calls_in(sub.body, "out.Assign")
             if not calls:
                 raise AnalysisError("out.Assign not constructed in mode branch")
             c = calls[0]
             m_out = dotted(c.args[2]).split(".")[-1]
-            ok = m_in == m_out and dotted(c.args[0]) == "result.target" and dotted(c.args[1]) == "result.source"
+            ok = m_in == m_out and dotted(c.args[0]) == f"{rv}.target" and dotted(c.args[1]) == f"{rv}.source"
             run.ob(ok, "convert_intrinsic[_IntrinsicAssignment]", file=prep.rel, line=sub.lineno, detail=m_in,
                    expected=f"out.Assign(result.target, result.source, AssignMode.{m_in}, [])", found=src(c)[:80])
             n += 1
@@ -199,7 +201,7 @@ def rule_chain(run):
             inner = _if_chain(b.body[0])
             seq = [dotted(c.func).split(".")[-1] for c in calls_in(inner[0].body) if (dotted(c.func) or "").startswith("ir.")]
             conc = [dotted(c.func).split(".")[-1] for c in calls_in(inner[1]) if (dotted(c.func) or "").startswith("ir.")]
-            is_seq = "SEQUENTIAL" in src(inner[0].test)
+            is_seq = "SEQUENTIAL" in P.T(inner[0].test)
             mode_map["_TEMP"] = (seq, conc) if is_seq else (conc, seq)
         else:
             cs = [c for c in calls_in(b.body) if (dotted(c.func) or "").startswith("ir.")]
@@ -220,7 +222,7 @@ def rule_chain(run):
     # stage 7: assembler
     asm = idx.mod(ASM)
     ap = asm.func("_StmtAssembler.apply")
-    br = ot.find_branch(ap.node, lambda t: isinstance(t, ast.Call) and dotted(t.func) == "isinstance" and "ir.SignalAssignment" in src(t))
+    br = ot.find_branch(ap.node, lambda t: isinstance(t, ast.Call) and dotted(t.func) == "isinstance" and "ir.SignalAssignment" in P.T(t))
     if br is None:
         raise AnalysisError("anchor vanished: assignment branch of the assembler")
     kind_map = {}
@@ -242,12 +244,12 @@ def rule_chain(run):
     ok = len(t_calls) == 1 and len(f_calls) == 1
     run.ob(ok, "_StmtAssembler.apply[assign]", file=asm.rel, line=fin[0].lineno, detail="constructors", expected="True: vhdl.SignalAssignment, False: vhdl.VariableAssignment", found="ok" if ok else "changed")
     for c in t_calls + f_calls:
-        ok = src(c.args[0]) == "vhdl.Target(inp._target)" and src(c.args[1]) == "vhdl.Value(inp._source)"
+        ok = P.T(c.args[0]) == "vhdl.Target(inp._target)" and P.T(c.args[1]) == "vhdl.Value(inp._source)"
         run.ob(ok, "_StmtAssembler.apply[assign]", file=asm.rel, line=c.lineno, detail=dotted(c.func) + ".args", expected="(vhdl.Target(inp._target), vhdl.Value(inp._source))", found=src(c)[:80])
     # assign_temporary: concurrent -> signal assignment, else variable assignment
     at = asm.func("assign_temporary")
     iff = [s for s in at.node.body if isinstance(s, ast.If)]
-    ok = bool(iff) and "Context.CONCURRENT" in src(iff[0].test) and ot.ctor_calls_in(iff[0].body, "vhdl.SignalAssignment") and ot.ctor_calls_in(iff[0].orelse, "vhdl.VariableAssignment")
+    ok = bool(iff) and "Context.CONCURRENT" in P.T(iff[0].test) and ot.ctor_calls_in(iff[0].body, "vhdl.SignalAssignment") and ot.ctor_calls_in(iff[0].orelse, "vhdl.VariableAssignment")
     run.ob(bool(ok), "assign_temporary", file=asm.rel, line=at.node.lineno, detail="by-context", expected="concurrent: signal assignment, sequential: variable assignment", found="ok" if ok else "changed")
 
     # stage 8: writers
@@ -265,7 +267,7 @@ def rule_chain(run):
 
     # stage 9: _assign_replacement dispatch
     ar = tq.func("TypeQualifier._assign_replacement")
-    t = src(ar.node)
+    t = P.T(ar.node)
     pairs = {"NEXT": "_next_setter_replacement", "PUSH": "_push_setter_replacement", "VALUE": "_value_setter_replacement"}
     for s in walk_local(ar.node):
         if isinstance(s, ast.If) and isinstance(s.test, ast.Compare) and dotted(s.test.left) == "assign_mode":
@@ -313,16 +315,26 @@ def rule_pushed(run):
     v = rp.func("Sequential._pushed_resettable_signals.<locals>.visit_objects")
     ifs = [s for s in v.node.body if isinstance(s, ast.If)]
     push_if = [s for s in ifs if src(s.test) in ("access & AccessFlags.PUSH", "AccessFlags.PUSH & access", "access is AccessFlags.PUSH")]
-    ok = bool(push_if) and any(isinstance(c.func, ast.Attribute) and dotted(c.func) == "pushed.add" and src(c.args[0]) == "obj._root" for c in calls_in(push_if[0].body))
+    # the set the _ResetPushed expansion iterates (whatever it is called)
+    vs = rp.func("Sequential._pushed_resettable_signals.<locals>.visit_statements")
+    brp = [s for s in walk_local(vs.node) if isinstance(s, ast.If) and "_ResetPushed" in src(s.test)]
+    pushed_set = None
+    if brp:
+        for c in ast.walk(brp[0]):
+            if isinstance(c, ast.ListComp) and isinstance(c.generators[0].iter, ast.Name):
+                pushed_set = c.generators[0].iter.id
+    if pushed_set is None:
+        raise AnalysisError("anchor vanished: set iterated by the _ResetPushed expansion")
+    ok = bool(push_if) and any(isinstance(c.func, ast.Attribute) and dotted(c.func) == f"{pushed_set}.add" and src(c.args[0]) == "obj._root" for c in calls_in(push_if[0].body))
     run.ob(ok, "Sequential._pushed_resettable_signals", file=rp.rel, line=v.node.lineno, detail="pushed-collection",
            expected="top-level `if access & AccessFlags.PUSH: pushed.add(obj._root)` (unconditional on default/noreset)",
            found="ok" if ok else "changed: " + "; ".join(src(s.test) for s in ifs))
     vs = rp.func("Sequential._pushed_resettable_signals.<locals>.visit_statements")
-    brp = [s for s in walk_local(vs.node) if isinstance(s, ast.If) and "_ResetPushed" in src(s.test)]
+    brp = [s for s in walk_local(vs.node) if isinstance(s, ast.If) and "_ResetPushed" in P.T(s.test)]
     ok = False
     if brp:
         comp = [c for c in ast.walk(brp[0]) if isinstance(c, ast.ListComp)]
-        ok = bool(comp) and dotted(comp[0].generators[0].iter) == "pushed" and "SignalAssignment(sig, sig.default()" in src(comp[0].elt).replace(comp[0].generators[0].target.id, "sig") and not comp[0].generators[0].ifs
+        ok = bool(comp) and dotted(comp[0].generators[0].iter) == pushed_set and "SignalAssignment(sig, sig.default()" in P.T(comp[0].elt).replace(comp[0].generators[0].target.id, "sig") and not comp[0].generators[0].ifs
     run.ob(ok, "Sequential._pushed_resettable_signals", file=rp.rel, line=(brp[0].lineno if brp else vs.node.lineno), detail="reset_pushed-expansion",
            expected="[SignalAssignment(sig, sig.default(), ...) for sig in pushed]", found="ok" if ok else "changed")
     applied = any(isinstance(c.func, ast.Attribute) and c.func.attr == "visit_objects" and dotted(c.args[0]) == "visit_objects" for c in calls_in(f.node)) and \
@@ -330,7 +342,7 @@ def rule_pushed(run):
     run.ob(applied, "Sequential._pushed_resettable_signals", file=rp.rel, line=f.node.lineno, detail="applied", expected="collect over all objects, then rewrite statements", found="ok" if applied else "changed")
     tq = idx.mod(TQ)
     r = tq.func("Signal._push_setter_replacement")
-    ok = any(isinstance(a, ast.Assert) and "self._default is not None" in src(a.test) for a in walk_local(r.node))
+    ok = any(isinstance(a, ast.Assert) and "self._default is not None" in P.T(a.test) for a in walk_local(r.node))
     run.ob(ok, "Signal._push_setter_replacement", file=tq.rel, line=r.node.lineno, detail="requires-default", expected="assert self._default is not None", found="ok" if ok else "missing")
     run.end()
 
@@ -345,22 +357,28 @@ def rule_alias(run):
     idx = run.idx
     rp = idx.mod(IRR)
     ap = rp.func("CodeBlock._fix_alias.<locals>.apply_alias")
+    # the alias map, whatever it is called: the dict collect_alias fills with signal -> replacement
+    ca0 = rp.func("CodeBlock._fix_alias.<locals>.collect_alias")
+    found = P.find(ca0.node, "__m[node.signal] = node.replacement")
+    if not found:
+        raise AnalysisError("anchor vanished: alias map filled by collect_alias")
+    amap = found[0][1]["__m"]
     conds = [s for s in walk_local(ap.node) if isinstance(s, ast.If)]
     t = [src(c.test) for c in conds]
     read_only = any("access is AccessFlags.READ" in x for x in t)
     run.ob(read_only, "CodeBlock._fix_alias.apply_alias", file=rp.rel, line=ap.node.lineno, detail="read-only", expected="only READ accesses are redirected", found="; ".join(t)[:100])
-    keyed = any(x.strip() == "obj._root in alias_map" for x in t)
+    keyed = any(x.strip() == f"obj._root in {amap}" for x in t)
     run.ob(keyed, "CodeBlock._fix_alias.apply_alias", file=rp.rel, line=ap.node.lineno, detail="keyed-by-root", expected="`obj._root in alias_map` (slices and elements of the signal are redirected too)", found="; ".join(t)[:100])
     rets = [r for r in walk_local(ap.node) if isinstance(r, ast.Return) and isinstance(r.value, ast.Call)]
     ok = False
     for r in rets:
         kws = {k.arg: src(k.value) for k in r.value.keywords}
-        if kws.get("_root") == "alias_map[obj._root]" and kws.get("_ref_spec") == "obj._ref_spec" and src(r.value.func) == "Temporary[obj.type]" and src(r.value.args[0]) == "obj._value":
+        if kws.get("_root") == f"{amap}[obj._root]" and kws.get("_ref_spec") == "obj._ref_spec" and P.T(r.value.func) == "Temporary[obj.type]" and P.T(r.value.args[0]) == "obj._value":
             ok = True
     run.ob(ok, "CodeBlock._fix_alias.apply_alias", file=rp.rel, line=ap.node.lineno, detail="view-preserved",
            expected="Temporary[obj.type](obj._value, _root=alias_map[obj._root], _ref_spec=obj._ref_spec)", found="ok" if ok else "; ".join(src(r.value)[:80] for r in rets))
     ca = rp.func("CodeBlock._fix_alias.<locals>.collect_alias")
-    ok = "alias_map[node.signal] = node.replacement" in src(ca.node)
+    ok = "alias_map[node.signal] = node.replacement" in P.T(ca.node)
     run.ob(ok, "CodeBlock._fix_alias.collect_alias", file=rp.rel, line=ca.node.lineno, detail="map", expected="alias_map[node.signal] = node.replacement", found="ok" if ok else "changed")
     fa = rp.func("CodeBlock._fix_alias")
     order = [dotted(c.args[0]) for c in walk_ordered(fa.node) if isinstance(c, ast.Call) and isinstance(c.func, ast.Attribute) and c.func.attr in ("visit", "visit_objects") and c.args]
@@ -372,7 +390,7 @@ def rule_alias(run):
         raise AnalysisError("out.SignalAlias construction not found")
     guard = None
     for anc in prep.parents.ancestors(sa[0]):
-        if isinstance(anc, ast.If) and "delayed_init" in src(anc.test):
+        if isinstance(anc, ast.If) and "delayed_init" in P.T(anc.test):
             guard = anc
             break
     gt = src(guard.test) if guard else ""
@@ -418,7 +436,7 @@ def rule_index_capture(run):
     br = ot.find_branch(ci.node, ot.isinstance_test("result", "intr_op._IntrinsicElemAccess"))
     if br is None:
         raise AnalysisError("anchor vanished: _IntrinsicElemAccess branch")
-    t = src(br.body[0]) if br.body else ""
+    t = P.T(br.body[0]) if br.body else ""
     ok = "out.Value(result.obj, [out.Assign(result.index_temp, result.index, AssignMode.AUTO, [])])" in t.replace("\n", "").replace("  ", "")
     calls = ot.ctor_calls_in(br.body, "out.Assign")
     ok = len(calls) == 1 and [src(a) for a in calls[0].args[:2]] == ["result.index_temp", "result.index"]
@@ -453,12 +471,12 @@ def rule_if_merge(run):
     br = ot.find_branch(ai.node, ot.isinstance_test("inp", "out.If"))
     if br is None:
         raise AnalysisError("anchor vanished: out.If branch of _apply_impl")
-    nb = [s for s in walk_local(br) if isinstance(s, ast.If) and src(s.test) == "not any_body"]
-    no = [s for s in walk_local(br) if isinstance(s, ast.If) and src(s.test) == "not any_orelse"]
+    nb = [s for s in walk_local(br) if isinstance(s, ast.If) and P.T(s.test) == "not any_body"]
+    no = [s for s in walk_local(br) if isinstance(s, ast.If) and P.T(s.test) == "not any_orelse"]
     # the asymmetric pair lives in the final else of the merge decision
     pair = None
     for a in nb:
-        if len(a.orelse) == 1 and isinstance(a.orelse[0], ast.If) and src(a.orelse[0].test) == "not any_orelse":
+        if len(a.orelse) == 1 and isinstance(a.orelse[0], ast.If) and P.T(a.orelse[0].test) == "not any_orelse":
             pair = (a, a.orelse[0])
     if pair is None:
         raise AnalysisError("asymmetric merge cases of the If lowering not recognised (unknown idiom)")
@@ -470,7 +488,7 @@ def rule_if_merge(run):
            found="mirror images" if ok else "NOT mirror images: " + " | ".join(src(s)[:50] for s in a.body) + "  <->  " + " | ".join(src(s)[:50] for s in b.body))
     # in the first case: continue in code_body and in every open block of the else part
     loops = [l for l in a.body if isinstance(l, ast.For)]
-    ok = len(loops) == 1 and dotted(loops[0].iter) == "open_orelse" and any("ret_blocks[code_body] = code_body" in src(s) for s in a.body)
+    ok = len(loops) == 1 and dotted(loops[0].iter) == "open_orelse" and any("ret_blocks[code_body] = code_body" in P.T(s) for s in a.body)
     run.ob(ok, "_apply_impl[out.If]", file=gen.rel, line=a.lineno, detail="no-transition-in-body",
            expected="ret = {code_body} ∪ open_orelse", found=" | ".join(src(s)[:60] for s in a.body))
     # symmetric cases take everything
@@ -478,7 +496,7 @@ def rule_if_merge(run):
     run.ob(len(alls) == 2, "_apply_impl[out.If]", file=gen.rel, line=br.lineno, detail="all-open-blocks",
            expected="both remaining cases continue in [*open_body, *open_orelse]", found=f"{len(alls)} such loops")
     # branch bodies are lowered into their own blocks
-    t = src(br)
+    t = P.T(br)
     ok = "open_body = self.apply(body, open_blocks=[code_body])" in t and "open_orelse = self.apply(orelse, open_blocks=[code_orelse])" in t
     run.ob(ok, "_apply_impl[out.If]", file=gen.rel, line=br.lineno, detail="branch-blocks", expected="body -> code_body, orelse -> code_orelse", found="ok" if ok else "changed")
     c = ot.ctor_calls_in(br.body, "ir.If")
